@@ -28,6 +28,21 @@ def c20_epilogue(steps, i):
     pid = np + 1
     blk = lambda dt, txs: {"ev": "block", "dt": dt, "proposer": 0, "absent": [], "evidence": [], "txs": txs}
     votes = [{"k": "gov_vote", "from": "v%d" % v, "id": pid, "opt": "yes"} for v in (1, 2, 3)]
+    if i % 3 == 2:
+        # "... or run upgrades": the v1.8.0 upgrade handler (activates the precompiles; the scenario's genesis
+        # starts without them) runs at its plan height after an EVM message was executed; the follower restarts
+        # right after the upgrade block and both nodes then call a newly activated precompile
+        return [
+            # the plan height is the block right after the one in which the proposal passes: x/upgrade refuses
+            # to run a binary that already contains the handler while the plan is still pending
+            blk(5000, [{"k": "gov_upgrade", "from": "a1", "name": "v1.8.0", "delta": 2}] + votes),
+            blk(61000, [{"k": "eth_send", "from": "a3", "to": "a4", "amt": "1000", "extraGas": 0}, {"k": "call", "from": "a6", "idx": 0}]),
+            blk(5000, [{"k": "send", "from": "a2", "to": "a1", "amt": "1"}]),     # the upgrade block
+            {"ev": "restart"},
+            blk(5000, [{"k": "pc_delegate", "from": "a2", "val": 1, "amt": "1000"}, {"k": "pc_setwd", "from": "a3", "to": "a4"},
+                       {"k": "deploy", "from": "a5", "slots": 2}]),
+            blk(5000, [{"k": "pc_withdraw", "from": "a2", "val": 1}]),
+        ]
     return [
         blk(5000, [{"k": "gov_evm_params", "from": "a1", "fail": i % 2 == 0}] + votes),
         blk(61000, [{"k": "send", "from": "a1", "to": "a2", "amt": "1"}]),
@@ -82,9 +97,11 @@ def run_family(c, prop, mode, nscen, maxlen, followers, exhaustive=True):
         raise Infra("too few chain scripts: %d" % len(scripts))
     full = []
     for i, steps in enumerate(scripts):
+        cfg = genesis_cfg(c.seed * 1000 + i)
         if mode == "C20":
             steps = steps + c20_epilogue(steps, i)
-        full.append({"cfg": genesis_cfg(c.seed * 1000 + i), "steps": steps})
+            cfg["noPrecompiles"] = i % 3 == 2
+        full.append({"cfg": cfg, "steps": steps})
     outs = [None] * len(full)
     with concurrent.futures.ThreadPoolExecutor(max_workers=6) as ex:
         futs = {ex.submit(run_scenario, wd, i + 1, s, followers): i for i, s in enumerate(full)}
